@@ -64,6 +64,9 @@ RealUnit(n, d, typ) == Fd(n, "real", 0, "closed", M, "closed", d, typ)     \* [0
 CountGe(n, m, d, typ) == Fd(n, "count", m, "closed", 0, "none", d, typ)    \* [m, inf)
 FreeC(n, d, typ)    == Fd(n, "count", 0, "none", 0, "none", d, typ)        \* undocumented, never rejected
 FreeR(n, d, typ)    == Fd(n, "real", 0, "none", 0, "none", d, typ)
+\* enum / boolean / selector option: a free field whose values are codes (the harness maps them to the
+\* variants); the documented range of no numeric parameter depends on it
+Sel(n, d, codes)    == FreeC(n, d, codes)
 UndocC(n, lo, d, typ) == Fd(n, "count", lo, "undoc", 0, "none", d, typ)
 UndocR(n, lo, d, typ) == Fd(n, "real", lo, "undoc", 0, "none", d, typ)
 
@@ -80,14 +83,16 @@ Alg(f, s, forms, pre, cross) == [f |-> f, s |-> s, forms |-> forms, pre |-> pre,
 (* "tolerance must be greater than 0", "max_n_iterations cannot be 0"                      *)
 D_kmeans == Alg(
   << CountGe("n_clusters", 1, 2, {2}), CountGe("n_runs", 1, 10, {2}),
-     RealGt0("tolerance", 100, {10000}), CountGe("max_n_iterations", 1, 300, {20}) >>,
-  << Ctor1("new", 1), Set1("n_runs", 2), Set1("tolerance", 3), Set1("max_n_iterations", 4) >>,
+     RealGt0("tolerance", 100, {10000}), CountGe("max_n_iterations", 1, 300, {20}),
+     Sel("init_method", 1, {0, 1}) >>,          \* Random | KMeansPlusPlus (KMeansPara is not reproducible run to run: C20)
+  << Ctor1("new", 1), Set1("n_runs", 2), Set1("tolerance", 3), Set1("max_n_iterations", 4), Set1("init_method", 5) >>,
   {"fit", "fit_with"}, "Invalid hyperparameter: ", "none")
 
 (* DBSCAN: "min_points must be greater than 1", "tolerance must be greater than 0" *)
 D_dbscan == Alg(
-  << CountGe("min_points", 2, 3, {3}), RealGt0("tolerance", 100, {1500000}) >>,
-  << Ctor1("new", 1), Set1("tolerance", 2) >>,
+  << CountGe("min_points", 2, 3, {3}), RealGt0("tolerance", 100, {1500000}),
+     Sel("nn_algo", 1, {0, 1, 2}) >>,                                      \* LinearSearch | KdTree | BallTree
+  << Ctor1("new", 1), Set1("tolerance", 2), Set1("nn_algo", 3) >>,
   {"transform", "transform_ds"}, "", "none")
 
 (* "approximate DBSCAN" is a type alias of DBSCAN in this tree (AppxDbscanParams = DbscanParams), so it
@@ -95,8 +100,8 @@ D_dbscan == Alg(
 
 (* OPTICS: "`tolerance` must be greater than 0!", "`min_points` must be greater than 1!"; default tolerance = inf *)
 D_optics == Alg(
-  << CountGe("min_points", 2, 3, {3}), RealGt0("tolerance", Inf, {3000000}) >>,
-  << Ctor1("new", 1), Set1("tolerance", 2) >>,
+  << CountGe("min_points", 2, 3, {3}), RealGt0("tolerance", Inf, {3000000}), Sel("nn_algo", 1, {0, 1, 2}) >>,
+  << Ctor1("new", 1), Set1("tolerance", 2), Set1("nn_algo", 3) >>,
   {"transform"}, "", "none")
 
 (* Gaussian mixture: "`n_clusters` cannot be 0!", "`tolerance` must be greater than 0!",           *)
@@ -104,8 +109,10 @@ D_optics == Alg(
 (* "`n_runs` cannot be 0!", "`max_n_iterations` cannot be 0!"                                      *)
 D_gmm == Alg(
   << CountGe("n_clusters", 1, 2, {2}), RealGt0("tolerance", 1000, {10000}), RealGe0("reg_covar", 1, {1000}),
-     CountGe("n_runs", 1, 1, {2}), CountGe("max_n_iterations", 1, 100, {20}) >>,
-  << Ctor1("new", 1), Set1("tolerance", 2), Set1("reg_covariance", 3), Set1("n_runs", 4), Set1("max_n_iterations", 5) >>,
+     CountGe("n_runs", 1, 1, {2}), CountGe("max_n_iterations", 1, 100, {20}),
+     Sel("init_method", 0, {0, 1}) >>,                                     \* KMeans | Random
+  << Ctor1("new", 1), Set1("tolerance", 2), Set1("reg_covariance", 3), Set1("n_runs", 4), Set1("max_n_iterations", 5),
+     Set1("init_method", 6) >>,
   {"fit"}, "", "none")
 
 (* elastic net (single and multi-task), range table of ElasticNetParams:                            *)
@@ -121,16 +128,18 @@ D_enet == Alg(
 (* "Setting alpha close to zero removes regularization"), "gradient_tolerance must be a positive,    *)
 (* finite number"; max_iterations undocumented and never rejected                                    *)
 D_logistic == Alg(
-  << RealPos("alpha", M, {100000}), RealPos("gradient_tolerance", 100, {1000}), FreeC("max_iterations", 100, {30}) >>,
-  << Set1("alpha", 1), Set1("gradient_tolerance", 2), Set1("max_iterations", 3) >>,
+  << RealPos("alpha", M, {100000}), RealPos("gradient_tolerance", 100, {1000}), FreeC("max_iterations", 100, {30}),
+     Sel("with_intercept", 1, {0, 1}) >>,
+  << Set1("alpha", 1), Set1("gradient_tolerance", 2), Set1("max_iterations", 3), Set1("with_intercept", 4) >>,
   {"fit"}, "", "none")
 
 (* Tweedie GLM: "`alpha` set to 0 is equivalent to unpenalized GLM" / "penalty should be positive",  *)
 (* "tweedie distribution power should not be in (0, 1)"                                              *)
 D_tweedie == Alg(
   << RealGe0("alpha", M, {100000}), Skip(Fd("power", "real", 0, "hole", M, "none", M, {2 * M}), {0 - M, 0 - 1}),
-     FreeC("max_iter", 100, {30}) >>,
-  << Set1("alpha", 1), Set1("power", 2), Set1("max_iter", 3) >>,
+     FreeC("max_iter", 100, {30}), Sel("fit_intercept", 1, {0, 1}),
+     NoRd(Off(Sel("link", 1, {1}))) >>,   \* Log, set explicitly (default: chosen from power; Identity with power >= 1 does not terminate)
+  << Set1("alpha", 1), Set1("power", 2), Set1("max_iter", 3), Set1("fit_intercept", 4), Set1("link", 5) >>,
   {"fit"}, "", "none")
 
 (* SVM, crate documentation: C "should be in the interval (0, inf)", Nu "should be in the interval   *)
@@ -145,25 +154,28 @@ SvmNu == Fd("nu", "real", 0, "atunspec", M, "closed", 0, {500000})
 D_svc == Alg(
   << Skip(UndocR("eps", 0, 0, {1000}), {0}), RealGt0("c_pos", M, {2 * M}), RealGt0("c_neg", M, {2 * M}),
      Off(SvmNu), Off(FreeR("nu_second", 0, {})),
-     CountGe("platt_maxiter", 1, 100, {50}), Skip(RealPos("platt_minstep", 0, {1}), {0}), RealPos("platt_sigma", 0, {1}) >>,
+     CountGe("platt_maxiter", 1, 100, {50}), Skip(RealPos("platt_minstep", 0, {1}), {0}), RealPos("platt_sigma", 0, {1}),
+     NoRd(Sel("kernel", 0, {0, 1, 2})), Sel("shrinking", 0, {0, 1}) >>,     \* linear | gaussian(30) | polynomial(1, 2)
   << Set1("eps", 1),
      St("pos_neg_weights", 2, << <<2, 1>>, <<3, 2>>, <<4, 0>>, <<5, 0>> >>, FALSE),
      St("nu_weight", 1, << <<4, 1>>, <<5, 1>>, <<2, 0>>, <<3, 0>> >>, FALSE),
-     St("with_platt_params", 3, << <<6, 1>>, <<7, 2>>, <<8, 3>> >>, FALSE) >>,
+     St("with_platt_params", 3, << <<6, 1>>, <<7, 2>>, <<8, 3>> >>, FALSE), Set1("kernel", 9), Set1("shrinking", 10) >>,
   {"fit"}, "", "none")
 D_svr == Alg(
   << Skip(UndocR("eps", 0, 0, {1000}), {0}), RealGt0("c", M, {2 * M}), UndocR("loss_eps", 0, M, {100000}),
-     Off(SvmNu), Off(RealGt0("nu_c", 0, {M})) >>,
+     Off(SvmNu), Off(RealGt0("nu_c", 0, {M})), NoRd(Sel("kernel", 0, {0, 1, 2})), Sel("shrinking", 0, {0, 1}) >>,
   << Set1("eps", 1),
      St("c_svr", 2, << <<2, 1>>, <<3, 2>>, <<4, 0>>, <<5, 0>> >>, FALSE),
-     St("nu_svr", 2, << <<4, 1>>, <<5, 2>>, <<2, 0>>, <<3, 0>> >>, FALSE) >>,
+     St("nu_svr", 2, << <<4, 1>>, <<5, 2>>, <<2, 0>>, <<3, 0>> >>, FALSE), Set1("kernel", 6), Set1("shrinking", 7) >>,
   {"fit"}, "", "none")
 
 (* decision tree: "Minimum impurity decrease should be greater than zero"; other limits undocumented *)
 D_tree == Alg(
   << Cushion(RealGt0("min_impurity_decrease", 10, {10})), Off(FreeC("max_depth", 0, {1, 3})),
-     FreeR("min_weight_split", 2 * M, {2 * M, 3 * M}), FreeR("min_weight_leaf", M, {M, 2 * M}) >>,
-  << Set1("min_impurity_decrease", 1), Set1("max_depth", 2), Set1("min_weight_split", 3), Set1("min_weight_leaf", 4) >>,
+     FreeR("min_weight_split", 2 * M, {2 * M, 3 * M}), FreeR("min_weight_leaf", M, {M, 2 * M}),
+     Sel("split_quality", 0, {0, 1}) >>,                                   \* Gini | Entropy
+  << Set1("min_impurity_decrease", 1), Set1("max_depth", 2), Set1("min_weight_split", 3), Set1("min_weight_leaf", 4),
+     Set1("split_quality", 5) >>,
   {"fit"}, "", "none")
 
 (* naive Bayes range tables: var_smoothing [0, inf), alpha [0, inf) *)
@@ -181,8 +193,9 @@ D_ftrl == Alg(
 (* PLS: "The tolerance is should not be negative, NaN or inf", "The maximal number of iterations     *)
 (* should be positive" (ZeroMaxIter); n_components is checked against the data, not by the guard     *)
 D_pls == Alg(
-  << NoRd(FreeC("n_components", 1, {1, 2})), NoRd(RealGe0("tolerance", 1, {100})), NoRd(CountGe("max_iterations", 1, 500, {100})) >>,
-  << Ctor1("new", 1), Set1("tolerance", 2), Set1("max_iterations", 3) >>,
+  << NoRd(FreeC("n_components", 1, {1, 2})), NoRd(RealGe0("tolerance", 1, {100})), NoRd(CountGe("max_iterations", 1, 500, {100})),
+     NoRd(Sel("algorithm", 0, {0, 1})), NoRd(Sel("scale", 1, {0, 1})) >>,  \* Nipals | Svd ; scale false | true
+  << Ctor1("new", 1), Set1("tolerance", 2), Set1("max_iterations", 3), Set1("algorithm", 4), Set1("scale", 5) >>,
   {"fit"}, "", "none")
 
 (* t-SNE: "negative perplexity"; approx_threshold "lies in range (0, inf) where a value of 0         *)
@@ -194,8 +207,8 @@ D_tsne == Alg(
 
 (* FastICA: "tolerance should be positive" (guard: tol < 0) *)
 D_ica == Alg(
-  << RealPos("tol", 100, {1000}), FreeC("max_iter", 200, {50}) >>,
-  << Set1("tol", 1), Set1("max_iter", 2) >>,
+  << RealPos("tol", 100, {1000}), FreeC("max_iter", 200, {50}), Sel("gfunc", 0, {0, 1, 2}) >>,   \* Logcosh(1) | Exp | Cube
+  << Set1("tol", 1), Set1("max_iter", 2), Set1("gfunc", 3) >>,
   {"fit"}, "", "none")
 
 (* diffusion map: "Number of steps zero in diffusion map operator"; embedding_size 0 is rejected with *)
@@ -220,22 +233,38 @@ D_platt == Alg(
 
 (* hierarchical clustering: "The stopping condition .. is not valid" -- no range is documented *)
 D_hier == Alg(
-  << UndocC("num_clusters", 0, 2, {2, 3}), Off(UndocR("max_distance", 0, 0, {M, 3 * M})) >>,
-  << St("num_clusters", 1, << <<1, 1>>, <<2, 0>> >>, FALSE), St("max_distance", 1, << <<2, 1>>, <<1, 0>> >>, FALSE) >>,
+  << UndocC("num_clusters", 0, 2, {2, 3}), Off(UndocR("max_distance", 0, 0, {M, 3 * M})),
+     Sel("method", 2, {0, 1, 2, 3}) >>,                                    \* Single | Complete | Average | Ward
+  << St("num_clusters", 1, << <<1, 1>>, <<2, 0>> >>, FALSE), St("max_distance", 1, << <<2, 1>>, <<1, 0>> >>, FALSE),
+     Set1("with_method", 3) >>,
   {"transform", "transform_ds"}, "", "none")
 
 (* count vectoriser: "n_gram boundaries cannot be zero", "`min_n` should not be greater than `max_n`", *)
 (* "`min_freq` and `max_freq` must lie in `0..=1` and `min_freq` should not be greater than `max_freq`"  *)
 D_countvec == Alg(
-  << CountGe("n_gram_min", 1, 1, {1}), CountGe("n_gram_max", 1, 1, {2}),
-     RealUnit("df_min", 0, {250000}), RealUnit("df_max", M, {750000}) >>,
-  << St("n_gram_range", 2, << <<1, 1>>, <<2, 2>> >>, FALSE), St("document_frequency", 2, << <<3, 1>>, <<4, 2>> >>, FALSE) >>,
+  << CountGe("n_gram_min", 1, 1, {1, 3}), CountGe("n_gram_max", 1, 1, {2}),
+     RealUnit("df_min", 0, {250000}), RealUnit("df_max", M, {750000}),
+     Sel("convert_to_lowercase", 1, {0, 1}), Sel("normalize", 1, {0, 1}),
+     \* tokenizer(Regex(..)): "Returns an error if the regex expression for the split is invalid";
+     \* codes 0 = the default expression, 1 = another valid expression, 2 = an invalid expression "("
+     Fd("split_regex", "count", 0, "none", 1, "closed", 0, {0, 1}),
+     Off(FreeC("max_features", 0, {2, 5})) >>,
+  << St("n_gram_range", 2, << <<1, 1>>, <<2, 2>> >>, FALSE), St("document_frequency", 2, << <<3, 1>>, <<4, 2>> >>, FALSE),
+     Set1("convert_to_lowercase", 5), Set1("normalize", 6), Set1("tokenizer_regex", 7), Set1("max_features", 8) >>,
   {"fit", "fit_vocabulary"}, "", "countvec")
 
 \* "...32" = the same builder instantiated with f32 instead of f64
 Algs == {"kmeans", "kmeans32", "dbscan", "dbscan32", "tree32", "optics", "gmm", "enet", "mtenet", "logistic", "mlogistic", "tweedie",
          "svc", "svr", "tree", "gnb", "mnb", "ftrl", "plsreg", "plscan", "plscca", "tsne", "ica", "diffmap",
          "rpgauss", "rpsparse", "platt", "hier", "countvec"}
+
+\* builders that implement Clone (the PLS wrappers and the unchecked random-projection builder do not)
+CloneAlgs == Algs \ {"plsreg", "plscan", "plscca", "rpgauss", "rpsparse"}
+\* operations a program may interleave with its setter calls (setter index 0): they must not change any
+\* parameter, and every later check judges the values the builder holds *then*
+\*   "check_ref"   check by reference, result discarded, same builder continues
+\*   "check_clone" check by reference, then continue with a clone of the builder
+MidOps(a) == {"check_ref"} \cup (IF a \in CloneAlgs THEN {"check_clone"} ELSE {})
 
 Doc == [a \in Algs |->
   CASE a \in {"kmeans", "kmeans32"} -> D_kmeans [] a \in {"dbscan", "dbscan32"} -> D_dbscan [] a = "optics" -> D_optics
